@@ -457,3 +457,37 @@ Proof.
     + destruct Hs as [m Hs]. exists m. intros k Hk. rewrite Hs by lia. reflexivity.
     + destruct Hs as [m Hs]. exists m. intros k Hk. rewrite Hs by lia. reflexivity.
 Qed.
+
+(* with no label passed yet and no label ahead, a goto leaves the block like the other signals *)
+Lemma scan_label_nolabel l e b : nolabel b -> scan_label l e b [] = None.
+Proof.
+  revert e. induction b as [|x b IH]; intros e Hb; [reflexivity|]. inversion Hb; subst.
+  destruct x; try discriminate; cbn [scan_label]; auto.
+Qed.
+
+Lemma ExecBlock_of_ExecS_nil E b st r :
+  ExecS E b st r -> nolabel b -> ExecBlock E [] b st r.
+Proof.
+  induction 1 as [E st | E s b st E' st' r' Hs Hb IH | E s b st r' Hs Hn]; intros Hl.
+  - exists 1%nat. intros [|k] Hk; [lia|]. reflexivity.
+  - inversion Hl; subst. apply Ev_S.
+    eapply Ev_ext; [intros k; apply exec_block_cons_unfold; assumption|].
+    eapply (Ev_bind (fun k => exec k E s st)); [exact Hs|]. cbn [snd fst]. apply IH; assumption.
+  - inversion Hl; subst. apply Ev_S.
+    eapply Ev_ext; [intros k; apply exec_block_cons_unfold; assumption|].
+    destruct r' as [[E1 sg] st1|v st1|st1|w st1].
+    + eapply (Ev_bind (fun k => exec k E s st)); [exact Hs|]. cbn [snd fst seen_find].
+      destruct sg; try apply Ev_const.
+      * exfalso. apply Hn. exact I.
+      * rewrite scan_label_nolabel by assumption. apply Ev_const.
+    + apply (Ev_bind_err (fun k => exec k E s st)). exact Hs.
+    + destruct Hs as [m Hs]. exists m. intros k Hk. rewrite Hs by lia. reflexivity.
+    + destruct Hs as [m Hs]. exists m. intros k Hk. rewrite Hs by lia. reflexivity.
+Qed.
+
+(* an if whose chosen branch does not end normally *)
+Lemma Exec_if_sig E c t f st vc st1 Eb sg st2 :
+  Eval E c st (ROk vc st1) ->
+  ExecBlock E [] (if truthy vc then t else f) st1 (ROk (Eb, sg) st2) ->
+  Exec E (SIf c t f) st (ROk (E, sg) st2).
+Proof. apply Exec_if. Qed.
